@@ -967,7 +967,10 @@ def _splice(res, op, cfg, docs, step, V, guarded):
         except Exception:
             a1 = a2 = None
         if a1 is not None and len(a2) >= len(a1) == len(p1):
-            d1_strings = {b.key for b in p1 if isinstance(b, M.String)}
+            # only @strings of D1 whose own value is a plain enclosed literal: an alias or a concatenation could be
+            # resolved further against later text by an implementation that follows chains
+            d1_strings = {b.key for b in p1 if isinstance(b, M.String) and isinstance(b.value, str) and len(b.value) >= 2
+                          and b.value[0] in '{"' and b.value[-1] in '}"' and "#" not in b.value}
             for i, (x, y, rawb) in enumerate(zip(a1, a2, p1)):
                 if isinstance(rawb, M.Entry):
                     bare = [f.value for f in rawb.fields if isinstance(f.value, str) and f.value
